@@ -523,7 +523,7 @@ func genBasic(r *hv.Rng) (string, hv.Val) {
 	}
 	uv := hv.L{}
 	for _, k := range users {
-		uv = append(uv, hv.L{hv.S(k.name), hv.Bool(auth.CheckSecret(presentedPw, k.hash)), hv.S(k.hash)})
+		uv = append(uv, hv.L{hv.S(k.name), hv.Bool(auth.CheckSecret(presentedPw, k.hash)), hv.S(k.hash), hv.I(r.Intn(4))})
 	}
 	route := 0
 	if r.Chance(1, 20) {
@@ -534,13 +534,29 @@ func genBasic(r *hv.Rng) (string, hv.Val) {
 }
 
 func implBasic(l []hv.Val) hv.Val {
-	users := map[string]string{}
+	// the user table goes through the module's own file reader: comment and blank lines, padding, optional 3rd field
+	var sb strings.Builder
+	sb.WriteString("# users of the rule under test\n\n")
 	for _, uvv := range hv.AsList(l[4]) {
 		e := hv.AsList(uvv)
-		users[hv.AsStr(e[0])] = hv.AsStr(e[2])
+		name, hash := hv.AsStr(e[0]), hv.AsStr(e[2])
+		switch hv.AsInt(e[3]) {
+		case 0:
+			sb.WriteString(name + ":" + hash + "\n")
+		case 1:
+			sb.WriteString("  " + name + ":" + hash + " \t\n")
+		case 2:
+			sb.WriteString(name + ":" + hash + ":a comment\n")
+		default:
+			sb.WriteString(name + " : " + hash + "\n\n")
+		}
+	}
+	path := scratch + "/userfile"
+	if err := os.WriteFile(path, []byte(sb.String()), 0644); err != nil {
+		panic(err)
 	}
 	a := hv.AsStr(l[1])
-	ok, st, www := mod_auth_basic.VerifBasic(int(hv.AsInt(l[5])), users, a, a != "")
+	ok, st, www := mod_auth_basic.VerifBasic(int(hv.AsInt(l[5])), path, a, a != "")
 	if !ok && !strings.HasPrefix(www, "Basic realm=") {
 		st = -2
 	}
@@ -597,6 +613,100 @@ func implBlock(l []hv.Val) hv.Val {
 	return hv.L{hv.Bool(conn), hv.Bool(req)}
 }
 
+// ---------------- block rule files
+var cmdSpellings = []string{"CLOSE", "ALLOW", "CLOSE", "ALLOW", "close", "allow", "Close", "Allow", "cLOSE", "DENY", "", "CLOSE ", "CLOSED", "PASS"}
+
+func genFRules(r *hv.Rng, nameBase int) (bool, hv.L) {
+	has := r.Chance(3, 4)
+	l := hv.L{}
+	for n := r.Intn(4); n > 0; n-- {
+		cond := pick(r, 0, 1, 1, 1)
+		hasCmd := true
+		cmd := cmdSpellings[r.Intn(4)]
+		np := 0
+		name := nameBase + len(l)
+		switch r.Intn(14) {
+		case 0:
+			cmd = cmdSpellings[r.Intn(len(cmdSpellings))]
+		case 1:
+			cmd = cmdSpellings[4+r.Intn(5)] // a case variant of a valid command
+		case 2:
+			hasCmd = false
+			cmd = ""
+		case 3:
+			np = pick(r, -1, 1, 2)
+		case 4:
+			cond = pick(r, 2, 3)
+		case 5:
+			name = pick(r, -1, nameBase) // missing, or (possibly) a duplicate
+		}
+		l = append(l, hv.L{hv.I(cond), hv.Bool(hasCmd), hv.S(cmd), hv.I(np), hv.I(name)})
+	}
+	return has, l
+}
+func genBlockLoad(r *hv.Rng) (string, hv.Val) {
+	files := hv.L{}
+	for n := r.Range(1, 3); n > 0; n-- {
+		hg, g := genFRules(r, 0)
+		hp, p := genFRules(r, 10)
+		files = append(files, hv.L{hv.Bool(hg), g, hv.Bool(hp), p})
+	}
+	return "block-load", hv.L{hv.I(5), files}
+}
+func fruleJSON(v hv.Val) map[string]interface{} {
+	x := hv.AsList(v)
+	m := map[string]interface{}{}
+	switch hv.AsInt(x[0]) {
+	case 0:
+		m["cond"] = "!default_t()"
+	case 1:
+		m["cond"] = "default_t()"
+	case 2:
+		m["cond"] = "no_such_primitive("
+	}
+	act := map[string]interface{}{}
+	if hv.AsInt(x[1]) != 0 {
+		act["cmd"] = hv.AsStr(x[2])
+	}
+	if np := hv.AsInt(x[3]); np >= 0 {
+		ps := []string{}
+		for j := int64(0); j < np; j++ {
+			ps = append(ps, "x")
+		}
+		act["params"] = ps
+	}
+	m["action"] = act
+	if nm := hv.AsInt(x[4]); nm >= 0 {
+		m["name"] = fmt.Sprintf("rule%d", nm)
+	}
+	return m
+}
+func implBlockLoad(l []hv.Val) hv.Val {
+	m := mod_block.VerifBlockFresh()
+	out := hv.L{}
+	for i, fv := range hv.AsList(l[1]) {
+		f := hv.AsList(fv)
+		cfg := map[string]interface{}{}
+		for j, prod := range []string{"global", "p"} {
+			if hv.AsInt(f[2*j]) != 0 {
+				rules := []interface{}{}
+				for _, rv := range hv.AsList(f[2*j+1]) {
+					rules = append(rules, fruleJSON(rv))
+				}
+				cfg[prod] = rules
+			}
+		}
+		data, _ := json.Marshal(map[string]interface{}{"Version": fmt.Sprintf("v%d", i), "Config": cfg})
+		path := fmt.Sprintf("%s/block_rules_%d.data", scratch, i)
+		if err := os.WriteFile(path, data, 0644); err != nil {
+			panic(err)
+		}
+		loaded := mod_block.VerifBlockLoadFile(m, path)
+		out = append(out, hv.L{hv.Bool(loaded), hv.Bool(mod_block.VerifBlockRequest(m))})
+	}
+	return out
+}
+
 func impl(in hv.Val) hv.Val {
 	l := hv.AsList(in)
 	switch hv.AsInt(l[0]) {
@@ -608,18 +718,22 @@ func impl(in hv.Val) hv.Val {
 		return implLink(l)
 	case 4:
 		return implBlock(l)
+	case 5:
+		return implBlockLoad(l)
 	}
 	return hv.Err(0)
 }
 
 func gen(r *hv.Rng, i int, tier string) (string, hv.Val) {
-	switch x := r.Intn(10); { // 40% JWT, 30% secure link, 10% basic, 20% block
+	switch x := r.Intn(10); { // 40% JWT, 30% secure link, 10% basic, 10% block rule files, 10% block tables
 	case x < 4:
 		return genJWT(r)
 	case x < 7:
 		return genLink(r)
 	case x < 8:
 		return genBasic(r)
+	case x < 9:
+		return genBlockLoad(r)
 	}
 	return genBlock(r)
 }
